@@ -71,7 +71,7 @@ G0 == [tr |-> -1, brought |-> 0, taken |-> 0, banks |-> <<>>, bankIds |-> {}, la
        missed |-> <<>>, missedIds |-> {}, ext |-> FALSE, extSetup |-> FALSE, openWin |-> {}, botCalls |-> {}, leavePending |-> {}, awaitFire |-> FALSE, blindSinceFire |-> FALSE, ansIds |-> {}, prevAns |-> {}, earlyAns |-> {}, heldAnswered |-> FALSE, closedBetween |-> FALSE, lastStatus |-> "none",
        cnt |-> <<>>, cntIds |-> {}, actEvents |-> <<>>, spyCalls |-> <<>>, inGate |-> "", blindSet |-> <<>>, blindSetInGate |-> FALSE,
        leftSince |-> {}, faults |-> 0, lastUpd |-> 0, kfMidLeave |-> FALSE,
-       withholdSt |-> <<>>, settledSt |-> <<>>, openSt |-> <<>>, callQ |-> <<>>, pubH |-> <<>>, nospy |-> FALSE, ownTid |-> "", engineHand |-> <<>>, engineStatus |-> "none", lastGcSeen |-> 0, enginePlayers |-> 0, autoFails |-> 0, errEvents |-> 0, afterFire |-> FALSE, fireSt |-> <<>>]
+       withholdSt |-> <<>>, settledSt |-> <<>>, openSt |-> <<>>, callQ |-> <<>>, pubH |-> <<>>, nospy |-> FALSE, ownTid |-> "", engineHand |-> <<>>, engineStatus |-> "none", lastGcSeen |-> 0, enginePlayers |-> 0, autoFails |-> 0, errEvents |-> 0, autoOwed |-> 0, afterFire |-> FALSE, fireSt |-> <<>>]
 
 Fn(f, ids, x, d) == IF x \in ids THEN f[x] ELSE d
 ZeroCnt == [at |-> 0, ct |-> 0, kt |-> 0, fold |-> FALSE, fr |-> ""]
@@ -161,8 +161,8 @@ Upd(gg, k) ==
             ELSE IF t.ev = "botcall" /\ t.res = "ok" THEN [g5 EXCEPT !.botCalls = @ \cup {<<t.a.id, t.a.note>>}]
             ELSE g5
       g7 == IF t.ev \in {"q", "end"} THEN [g6 EXCEPT !.settledSt = <<>>] ELSE g6
-      g7b == IF t.ev = "spy" /\ t.res = "fail" /\ t.a.kind \in {"readyall", "ante", "blinds", "next", "create"} THEN [g7 EXCEPT !.autoFails = @ + 1]
-             ELSE IF t.ev = "cb:error" THEN [g7 EXCEPT !.errEvents = @ + 1] ELSE g7
+      g7b == IF t.ev = "spy" /\ t.res = "fail" /\ t.a.kind \in {"readyall", "ante", "blinds", "next", "create"} THEN [g7 EXCEPT !.autoFails = @ + 1, !.autoOwed = @ + 1]
+             ELSE IF t.ev = "cb:error" THEN [g7 EXCEPT !.errEvents = @ + 1, !.autoOwed = IF @ > 0 THEN @ - 1 ELSE 0] ELSE g7
       g7c == IF t.ev = "cb:updated" THEN [g7b EXCEPT !.engineHand = st.hand, !.engineStatus = st.status, !.lastGcSeen = st.gc, !.enginePlayers = Len(st.players)] ELSE g7b
       g8 == IF t.ev = "hook" /\ t.a.kind = "continue.fire" THEN [g7c EXCEPT !.afterFire = TRUE, !.fireSt = <<st>>, !.extSetup = FALSE, !.awaitFire = FALSE, !.blindSinceFire = FALSE]
             ELSE IF t.ev = "hook" /\ t.a.kind = "continue.reset" THEN [g7c EXCEPT !.afterFire = FALSE, !.awaitFire = TRUE]
@@ -488,7 +488,9 @@ C13_retryAccepted(t, gg) ==
 \* with failures in the hand, its course is still exactly the chain of successfully applied steps
 C13_courseBySuccessfulSteps(t, gg) == (HasPubStep(t, gg) /\ gg.faults > 0) => PubStep(t, gg)
 \* a failure in a step the engine performs by itself reaches the table error callback
-C13_autoFailReported(t, gg) == (t.ev = "end" /\ gg.autoFails > 0) => gg.errEvents >= gg.autoFails
+\* every failure of a step the engine performs by itself is followed by a report of its own on the error callback (a report
+\* that came before the failure -- whatever it was about -- does not stand in for it)
+C13_autoFailReported(t, gg) == (t.ev = "end" /\ gg.autoFails > 0) => (gg.errEvents >= gg.autoFails /\ gg.autoOwed = 0)
 
 \* ---------------------------------------------------------------- C12
 C12_createAtOpenBlind(t, gg) ==
